@@ -8,6 +8,7 @@ pub mod c33_swarm;
 pub mod nm_family;
 pub mod sess_family;
 pub mod subs_family;
+pub mod wire_family;
 
 pub fn all() -> Vec<Box<dyn Scenario>> {
     let mut v: Vec<Box<dyn Scenario>> = vec![Box::new(c11_framing::C11), Box::new(c15_handshake::C15)];
@@ -19,6 +20,9 @@ pub fn all() -> Vec<Box<dyn Scenario>> {
     }
     for id in ["C19", "C20"] {
         v.push(Box::new(sess_family::Sess { id }));
+    }
+    for id in ["C07", "C08", "C09"] {
+        v.push(Box::new(wire_family::Wire { id }));
     }
     v.push(Box::new(c30_browse::C30));
     v.push(Box::new(c32_attributes::C32));
